@@ -12,7 +12,7 @@ from mc.runner import add_violation, h64, new_result
 PROPERTY = "C19"
 LEVEL = "model_checking"
 RULE = (
-    "(A) every rule of the condition space (all trees up to the operator bound over detection names and selectors incl. "
+    "(A2) the same condition text in several rules (different detection names) validated by one validator instance in both rule orders; (A) every rule of the condition space (all trees up to the operator bound over detection names and selectors incl. "
     "zero-match, keyword-like and underscore names) is validated by the two reference validators and compared with the "
     "reference (unused / dangling sets); (B) every built-in validator alone, and the full set, on every rule of a mixed pool "
     "with snapshots (to_dict, queries in two backend configurations, structural repr) before/after - histories "
@@ -125,6 +125,58 @@ def judge_A(res, st, names, trees):
         kind = "unused" if [g for g in got if g[0].startswith("DanglingDet")] != [e for e in exp if e[0].startswith("DanglingDet")] else "dangling"
         cls = "underscore" if any(n.startswith("_") for n in set(x[2][0][1] for x in got) ^ set(x[2][0][1] for x in exp)) else "plain"
         add_violation(res, f"A:{kind}-set-differs:{cls}", case, exp, got)
+
+
+A2_NAMESETS = [["sel", "sel_a", "flt_a", "_u"], ["sel", "sel1", "x_a"], ["sel", "sel_b", "sel_c", "_sel_d", "y_a"]]
+A2_PATTERNS = ["them", "sel*", "*_a", "_*", "zz*"]
+
+
+def space_A2(tier):
+    """the same condition text in several rules of one collection (different detection names), one validator instance"""
+    leaves = [("n", "sel")] + [("s", q, p) for q in QUANT for p in A2_PATTERNS]
+    for t in T.trees_upto(BOUNDS[tier]["kred"], leaves):
+        yield t
+
+
+def ref_issues_A(names, trees, title):
+    referenced, dangling = set(), set()
+    for t in trees:
+        for l in T.leaves_of(t):
+            if l[0] == "n":
+                referenced.add(l[1])
+            else:
+                ms = sel_matches(l[2], names)
+                referenced.update(ms)
+                if not ms:
+                    dangling.add(l[2])
+    return ([("DanglingDetectionIssue", (title,), (("detection_name", n),)) for n in names if n not in referenced] +
+            [("DanglingConditionIssue", (title,), (("condition_name", p),)) for p in dangling])
+
+
+def judge_A2(res, st, tree):
+    from sigma.rule import SigmaRule
+    from sigma.validation import SigmaValidator
+
+    vs = all_validators()
+    cond = T.print_min(tmap(tree))
+    case = {"sub": "A2", "condition": cond, "namesets": A2_NAMESETS}
+    for order in (list(range(len(A2_NAMESETS))), list(reversed(range(len(A2_NAMESETS))))):
+        res["evaluations"] += 1
+        st.history()
+        st.transition(len(order))
+        try:
+            rules = [SigmaRule.from_dict(rule_doc(A2_NAMESETS[i], [cond], title=f"t{i}")) for i in order]
+            got = issues_of(SigmaValidator([vs["dangling_detection"], vs["dangling_condition"]]).validate_rules(iter(rules)))
+        except Exception as e:
+            add_violation(res, f"A2:exception:{type(e).__name__}", case, "issues", repr(e)[:200])
+            return
+        exp = sorted(x for i in order for x in ref_issues_A(A2_NAMESETS[i], [tree], f"t{i}"))
+        res["outcomes"].add(h64(exp))
+        if exp:
+            res["nontrivial"].add(h64([cond, order]))
+        if got != exp:
+            add_violation(res, "A2:issue-set-differs-for-rules-sharing-a-condition-text", dict(case, order=order), exp, got)
+            return
 
 
 # ------------------------------------------------------------------------------------------------ (B) purity
@@ -299,6 +351,9 @@ def run_shard(shard, tier, seed):
             if n % NSH_A == idx:
                 st.history()
                 judge_A(res, st, names, trees)
+        for n, t in enumerate(space_A2(tier)):
+            if n % NSH_A == idx:
+                judge_A2(res, st, t)
         st.state(["A", idx])
         res["samples"].append({"sub": "A", "names": NAMESETS[0], "condition": "1 of sel* and not _u"})
     elif sub == "B":
